@@ -120,12 +120,19 @@ FindRead(h, e, x) ==
        ELSE IF v = GlobM THEN ModEnv
        ELSE e
 
+\* the nearest "Python scope" (function or module) at or above e: defn and
+\* the walrus of a comprehension assign there, skipping let/comp scopes
+RECURSIVE PyScope(_, _)
+PyScope(h, e) == IF h[e].kind \in {"mod", "fn"} THEN e ELSE PyScope(h, h[e].par)
+
 \* read: <<"ok", value>> or <<"err", type>>
 Read(h, e, x) ==
   LET w == FindRead(h, e, x) IN
   IF w = 0 THEN <<"err", TyNameError>>
   ELSE LET v == h[w].vars[x] IN
-       IF v = Unb THEN <<"err", IF h[w].kind = "fn" THEN TyUnbound ELSE TyNameError>>
+       \* an unbound local of the running function: UnboundLocalError; an unbound variable
+       \* of an enclosing function (a free variable) or of a let: NameError
+       IF v = Unb THEN <<"err", IF h[w].kind = "fn" /\ w = PyScope(h, e) THEN TyUnbound ELSE TyNameError>>
        ELSE IF ~IsVal(v) THEN <<"err", TyNameError>>
        ELSE <<"ok", v>>
 
@@ -148,11 +155,6 @@ FindOuter(h, e, x) ==
 
 Write(h, e, x, v) ==
   LET w == FindWrite(h, e, x) IN [h EXCEPT ![w].vars[x] = v]
-
-\* the nearest "Python scope" (function or module) at or above e: defn and
-\* the walrus of a comprehension assign there, skipping let/comp scopes
-RECURSIVE PyScope(_, _)
-PyScope(h, e) == IF h[e].kind \in {"mod", "fn"} THEN e ELSE PyScope(h, h[e].par)
 
 \* ---------------------------------------------------------------- static scoping
 \* names a function body assigns in its own Python scope (=> its locals):
